@@ -335,6 +335,9 @@ def build(spec, decorate=None, on_action=None, budget=30):
     rt.inner.append(h)
     if decorate == "other":
       fns.append(passthrough(h))
+    elif decorate in ("mixed_even", "mixed_odd"):
+      # a chart on which some state functions wear the decorator and some do not
+      fns.append(deco(h) if (i % 2 == 0) == (decorate == "mixed_even") else h)
     else:
       fns.append(deco(h) if decorate else h)
   return rt
